@@ -145,7 +145,7 @@ prop('C08', 'pser', 'exploration',
      'rapid draws valid portable or frozen bytes (independent encoder), places them in a PROT_READ mapping flush against PROT_NONE guard pages (front or back), loads them with FromBuffer / FromUnsafeBytes / FrozenView and runs a state machine over the loaded bitmap and everything derived from it: point/range/bulk mutations, rules that empty a chunk or drop all leading chunks (the key table must shift), '
      'in-place and static And/Or/Xor/AndNot in both roles with ordinary bitmaps, Clone, Flip, AddOffset64, FastOr, HeapXor, RunOptimize, Clear, reuse as receiver of ReadFrom/UnmarshalBinary; SetCopyOnWrite is never called (documented misuse). At a generated step: detach = CloneCopyOnWriteContainers on every live bitmap, then the mapping is overwritten and unmapped, and the history continues. '
      'Oracle after every step: no fault (a write to the buffer or any access after unmap panics), buffer byte-identical until detach, every live bitmap equals its model before and after detach. Non-trivial = an in-place change hits a chunk that still aliases the buffer, or the history continues >=3 steps after detach; distinct = FNV-64 of the history',
-     T(4, 1500, 16, 20000),
+     T(8, 400, 16, 12000),
      'model-based stateful property testing with memory-protection instruments (read-only + guard pages + unmap after detach)',
      'generated histories; stray writes and dangling reads become faults', 'trusted: mprotect/munmap semantics; interval-set model; faults are only caught on the test goroutine (no Par* calls in this machine)', SER_ASSUME)
 
